@@ -81,6 +81,21 @@ pub fn roundtrip(p: &POpt, q: &QOpt, mv: &MV) -> Result<String, (String, String)
             ))
         }
     };
+    // the same option sets built by another route through the builder API
+    // (from the Emacs Lisp sets, plural keyword setter, fields in another
+    // order) print and read identically
+    match catch(|| (lexpr::to_string_custom(&v, p.to_lexpr_alt()), lexpr::from_str_custom(&text, q.to_lexpr()).ok(), lexpr::from_str_custom(&text, q.to_lexpr_alt()).ok())) {
+        Ok((Ok(t2), a, b)) => {
+            if t2 != text {
+                return Err(("stage=builder-route printer".into(), format!("the printer options built from Options::elisp() print {:?}, the ones built from Options::default() print {:?}", clip(&t2, 200), clip(&text, 200))));
+            }
+            if a.as_ref().map(MV::from_value) != b.as_ref().map(MV::from_value) {
+                return Err(("stage=builder-route parser".into(), format!("{:?} reads as {} under the options built from Options::new() but as {} under the same set built from Options::elisp() with with_keyword_syntaxes", clip(&text, 200), short(&a), short(&b))));
+            }
+        }
+        Ok((Err(e), _, _)) => return Err(("stage=builder-route printer".into(), format!("printing with the alternatively built options failed: {}", e))),
+        Err(pm) => return Err((format!("stage=builder-route panic msg={}", panic_sig(&pm)), pm)),
+    }
     let expected = fold(p, q, mv);
     let fl = |a: f64, b: f64| float_roundtrip_ok(a, b, &ryu_text(a));
     match catch(|| lexpr::from_str_custom(&text, q.to_lexpr())) {
